@@ -1151,47 +1151,53 @@ func runContractV1(s *Session) {
 		}
 		fcid := txn.FileContractID(0)
 		cur := chain.fcs[fcid].FileContract
-		// ---- payments by contract
-		for _, raw := range payRaw {
-			rev := types.FileContractRevision{ParentID: fcid, UnlockConditions: contractUC, FileContract: cur}
-			rev.FileContract.ValidProofOutputs = append([]types.SiacoinOutput(nil), cur.ValidProofOutputs...)
-			rev.FileContract.MissedProofOutputs = append([]types.SiacoinOutput(nil), cur.MissedProofOutputs...)
-			amount := cur.ValidProofOutputs[0].Value.Div64(uint64(2 + raw%7))
-			switch raw % 5 {
-			case 0:
-				amount = cur.ValidProofOutputs[0].Value
-			case 1:
-				amount = cur.ValidProofOutputs[0].Value.Add(types.NewCurrency64(1))
+		// ---- payments by contract (again on the renewed contract, whose void output is not zero)
+		payments := func() bool {
+			for _, raw := range payRaw {
+				rev := types.FileContractRevision{ParentID: fcid, UnlockConditions: contractUC, FileContract: cur}
+				rev.FileContract.ValidProofOutputs = append([]types.SiacoinOutput(nil), cur.ValidProofOutputs...)
+				rev.FileContract.MissedProofOutputs = append([]types.SiacoinOutput(nil), cur.MissedProofOutputs...)
+				amount := cur.ValidProofOutputs[0].Value.Div64(uint64(2 + raw%7))
+				switch raw % 5 {
+				case 0:
+					amount = cur.ValidProofOutputs[0].Value
+				case 1:
+					amount = cur.ValidProofOutputs[0].Value.Add(types.NewCurrency64(1))
+				}
+				_, paid := rhp3.PayByContract(&rev, amount, rhp3.Account{}, renterSK)
+				can := cur.ValidProofOutputs[0].Value.Cmp(amount) >= 0 && cur.MissedProofOutputs[0].Value.Cmp(amount) >= 0
+				if paid != can {
+					bad("pay-by-contract", "PayByContract(%v) on renter payout %v returned ok=%v", amount, cur.ValidProofOutputs[0].Value, paid)
+				}
+				if !paid {
+					e.inc("c17.insufficient")
+					continue
+				}
+				if amount.IsZero() {
+					continue
+				}
+				nf := rev.FileContract
+				if new(big.Int).Sub(bi(cur.ValidProofOutputs[0].Value), bi(nf.ValidProofOutputs[0].Value)).Cmp(bi(amount)) != 0 ||
+					new(big.Int).Sub(bi(nf.ValidProofOutputs[1].Value), bi(cur.ValidProofOutputs[1].Value)).Cmp(bi(amount)) != 0 ||
+					new(big.Int).Sub(bi(cur.MissedProofOutputs[0].Value), bi(nf.MissedProofOutputs[0].Value)).Cmp(bi(amount)) != 0 ||
+					new(big.Int).Sub(bi(nf.MissedProofOutputs[1].Value), bi(cur.MissedProofOutputs[1].Value)).Cmp(bi(amount)) != 0 || nf.RevisionNumber != cur.RevisionNumber+1 {
+					bad("pay-by-contract", "PayByContract(%v): outputs moved from %v/%v to %v/%v", amount, cur.ValidProofOutputs, cur.MissedProofOutputs, nf.ValidProofOutputs, nf.MissedProofOutputs)
+				}
+				ptx := types.Transaction{FileContractRevisions: []types.FileContractRevision{rev}}
+				signAll(&ptx)
+				ok, alive := submit(fmt.Sprintf("pay-by-contract revision of %v", amount), ptx)
+				if !alive {
+					return false
+				}
+				if ok {
+					cur = chain.fcs[fcid].FileContract
+					e.inc("c17.revision-checked")
+				}
 			}
-			_, paid := rhp3.PayByContract(&rev, amount, rhp3.Account{}, renterSK)
-			can := cur.ValidProofOutputs[0].Value.Cmp(amount) >= 0 && cur.MissedProofOutputs[0].Value.Cmp(amount) >= 0
-			if paid != can {
-				bad("pay-by-contract", "PayByContract(%v) on renter payout %v returned ok=%v", amount, cur.ValidProofOutputs[0].Value, paid)
-			}
-			if !paid {
-				e.inc("c17.insufficient")
-				continue
-			}
-			if amount.IsZero() {
-				continue
-			}
-			nf := rev.FileContract
-			if new(big.Int).Sub(bi(cur.ValidProofOutputs[0].Value), bi(nf.ValidProofOutputs[0].Value)).Cmp(bi(amount)) != 0 ||
-				new(big.Int).Sub(bi(nf.ValidProofOutputs[1].Value), bi(cur.ValidProofOutputs[1].Value)).Cmp(bi(amount)) != 0 ||
-				new(big.Int).Sub(bi(cur.MissedProofOutputs[0].Value), bi(nf.MissedProofOutputs[0].Value)).Cmp(bi(amount)) != 0 ||
-				new(big.Int).Sub(bi(nf.MissedProofOutputs[1].Value), bi(cur.MissedProofOutputs[1].Value)).Cmp(bi(amount)) != 0 || nf.RevisionNumber != cur.RevisionNumber+1 {
-				bad("pay-by-contract", "PayByContract(%v): outputs moved from %v/%v to %v/%v", amount, cur.ValidProofOutputs, cur.MissedProofOutputs, nf.ValidProofOutputs, nf.MissedProofOutputs)
-			}
-			ptx := types.Transaction{FileContractRevisions: []types.FileContractRevision{rev}}
-			signAll(&ptx)
-			ok, alive := submit(fmt.Sprintf("pay-by-contract revision of %v", amount), ptx)
-			if !alive {
-				return
-			}
-			if ok {
-				cur = chain.fcs[fcid].FileContract
-				e.inc("c17.revision-checked")
-			}
+			return true
+		}
+		if !payments() {
+			return
 		}
 		// ---- renewal
 		if renewVia == "none" {
@@ -1250,6 +1256,14 @@ func runContractV1(s *Session) {
 		signAll(&rtx)
 		if ok, _ := submit(what, rtx); ok {
 			e.inc("c17.renewal-checked")
+			fcid = rtx.FileContractID(0)
+			if el, in := chain.fcs[fcid]; in {
+				cur = el.FileContract
+				if len(cur.MissedProofOutputs) == 3 && !cur.MissedProofOutputs[2].Value.IsZero() {
+					e.inc("c17.pay-after-renewal-with-void-output")
+				}
+				payments()
+			}
 		}
 	}
 	go renterTask(s.ea, s.a)
